@@ -1,11 +1,11 @@
-"""Layer B - the oracles of C03, C06, C07, C09 and C15 attached to the REAL functions while a foreign workload runs
+"""Layer B - the oracles of C03, C06, C07, C09, C15 and C19 attached to the REAL functions while a foreign workload runs
 (the repository's own test-suite and doc examples):   pytest -p nixmon.passive.plugin
 
 Every monitor wraps a function of the imported library, lets the original run, judges the outcome with an oracle that is
 valid for every input of its class, RECORDS the verdict and always returns / re-raises what the original did - it never
 alters control flow.  Verdicts are written per pytest-xdist worker to $NIXMON_PASSIVE_OUT/<pid>.json at session end.
 Calls whose oracle is ambiguous (a position inside the library's float tolerance band, a unit that is not atomic, ...) are
-counted as skipped, never judged.  NIXMON_PASSIVE_MONITORS = comma separated subset of {C03, C06, C07, C09, C15}.
+counted as skipped, never judged.  NIXMON_PASSIVE_MONITORS = comma separated subset of {C03, C06, C07, C09, C15, C19}.
 """
 import json
 import math
@@ -353,7 +353,57 @@ def install_c03(nix):
     Container.__getitem__ = __getitem__
 
 
-INSTALLERS = {"C03": install_c03, "C06": install_c06, "C07": install_c07, "C09": install_c09, "C15": install_c15}
+def install_c19(nix):
+    """Every write of a 'created_at' / 'updated_at' attribute, whoever issues it: the creation time of an existing entity changes
+    only inside force_created_at; the update time goes backwards only inside a force_updated_at that was given a time."""
+    from nixio.hdf5.h5group import H5Group
+    from nixio.entity import Entity
+    from nixio.file import File
+    from nixio.feature import Feature
+    from nixio.util import str_to_time
+    orig_set = H5Group.set_attr
+
+    def wrap_force(cls, name, which):
+        orig = getattr(cls, name, None)
+        if orig is None:
+            return
+
+        def forced(self, time=None):
+            prev = getattr(_local, "force", None)
+            _local.force = (which, time is not None)
+            try:
+                return orig(self) if time is None else orig(self, time)
+            finally:
+                _local.force = prev
+        forced.__name__ = name
+        setattr(cls, name, forced)
+    for cls in (Entity, File, Feature):
+        wrap_force(cls, "force_created_at", "created_at")
+        wrap_force(cls, "force_updated_at", "updated_at")
+
+    def set_attr(self, name, value):
+        old = None
+        if name in ("created_at", "updated_at") and not busy():
+            try:
+                old = self.get_attr(name)
+            except Exception:
+                old = None
+        out = orig_set(self, name, value)
+        if name in ("created_at", "updated_at") and old is not None and not busy():
+            def judge():
+                force = getattr(_local, "force", None)
+                a, b = str_to_time(old), str_to_time(value if not isinstance(value, bytes) else value.decode())
+                count("C19.%s_rewrites_judged" % name)
+                if name == "created_at" and a != b and not (force and force[0] == "created_at"):
+                    violation("C19:created_at_changed_outside_force_created_at", {"before": a, "after": b, "group": getattr(self, "name", None)})
+                if name == "updated_at" and b < a and not (force and force[0] == "updated_at" and force[1]):
+                    violation("C19:updated_at_moved_backwards", {"before": a, "after": b, "group": getattr(self, "name", None)})
+            guarded(judge)
+        return out
+    H5Group.set_attr = set_attr
+
+
+INSTALLERS = {"C19": install_c19, "C03": install_c03, "C06": install_c06, "C07": install_c07, "C09": install_c09, "C15": install_c15}
 
 
 def pytest_configure(config):
